@@ -16,24 +16,61 @@ QUICK_MODELS = ["Lat_q1.cfg", "Lat_q2.cfg", "Lat_q3.cfg"]
 THOROUGH_MODELS = ["Lat_t1.cfg", "Lat_t2.cfg", "Lat_t3.cfg", "Lat_t4.cfg", "Lat_t5.cfg"]
 
 
+def screen(c, K, out):
+  """Cheap numpy screen (monotonicity along monotone dimensions, output bounds) used in the thorough tier to make sure
+  that every suspicious column is among those handed to TLC; it never removes anything from the judged sample."""
+  sizes = c["sizes"]
+  o = out.reshape(tuple(sizes) + (out.shape[1],))
+  bad = np.zeros(out.shape[1], dtype=bool)
+  for d, m in enumerate(c["mono"]):
+    if m == 1:
+      diff = np.diff(o, axis=d)
+      bad |= (diff.reshape(-1, out.shape[1]).min(axis=0) < -1e-6)
+  if c["hasMin"]:
+    bad |= out.min(axis=0) < float(latcfg.frac(c["omin"])) - 1e-6
+  if c["hasMax"]:
+    bad |= out.max(axis=0) > float(latcfg.frac(c["omax"])) + 1e-6
+  bad |= ~np.isfinite(out).all(axis=0)
+  return bad
+
+
+def judged_columns(ctx, c, K, out, cap):
+  """All columns in the quick tier; in the thorough tier (millions of enumerated kernels) a seeded sample of `cap`
+  columns per call plus every column the numpy screen flags.  Every column is still run through the real code."""
+  n = K.shape[1]
+  ctx.extra["columns_run"] = ctx.extra.get("columns_run", 0) + n
+  if ctx.quick or n <= cap:
+    ctx.extra["columns_judged"] = ctx.extra.get("columns_judged", 0) + n
+    return np.arange(n)
+  rng = np.random.default_rng(ctx.seed + n + len(c["sizes"]))
+  pick = np.zeros(n, dtype=bool)
+  pick[rng.choice(n, size=cap, replace=False)] = True
+  pick |= screen(c, K, out)
+  ctx.extra["columns_judged"] = ctx.extra.get("columns_judged", 0) + int(pick.sum())
+  return np.nonzero(pick)[0]
+
+
 def replay_cases(tf, tfl, ctx, files):
   """spec -> code: every TLC-enumerated (configuration, kernel) through the real constraint."""
   events = []
   nlayer = 0
+  cap = 400
   for fi, cf in enumerate(files):
     for j, c in enumerate(cf["cfgs"]):
       nv = int(np.prod(c["sizes"]))
       K = latcfg.grid_kernels(cf["vals"], nv)
       try:
         out = latcfg.run_constraint(tf, tfl, c, K)
-        events += latcfg.events_for(c, K, out, "Constrain", True, ctx)
+        idx = judged_columns(ctx, c, K, out, cap)
+        events += latcfg.events_for(c, K[:, idx], out[:, idx], "Constrain", True, ctx)
       except Exception as ex:  # pylint: disable=broad-except
         events.append(latcfg.raised_event(c, "Constrain", ex))
       # the library function on its own, and a slice through the layer's finalize_constraints()
       if any(c["mono"]):
         try:
           out = latcfg.run_finalize_lib(tf, c, K)
-          events += latcfg.events_for(c, K, out, "Finalize", True, ctx)
+          idx = judged_columns(ctx, c, K, out, cap)
+          events += latcfg.events_for(c, K[:, idx], out[:, idx], "Finalize", True, ctx)
         except Exception as ex:  # pylint: disable=broad-except
           events.append(latcfg.raised_event(c, "Finalize", ex))
       if (j + ctx.seed) % (6 if ctx.quick else 3) == 0:
